@@ -302,7 +302,7 @@ def run_shard(shard, rec, tier, seed):
     make_distractor()
     for i in range(shard["count"]):
         rng = harness.rng_for(seed, ID, shard["name"], i)
-        case = gen.gen_chart(rng, "hostile" if i % 3 == 0 else "realistic", n_tracks=rng.choice([1, 2, 3]),
+        case = gen.chart_or_interactions(rng, i, "hostile" if i % 3 == 0 else "realistic", rec, n_tracks=rng.choice([1, 2, 3]),
                              n_groups=rng.choice([0, 1, 2, 6, 25]) if i % 14 else 900, n_globals=0,
                              n_tempos=rng.choice([1, 2, 5, 12]) if i % 14 else 60)
         if i % 5 == 2 and len(case["truth"]["tempos"]) == 1:
